@@ -413,6 +413,11 @@ func (nfs *Nfs) doCreate(dfh nfstypes.Nfs_fh3, name nfstypes.Filename3, kind nfs
 	data []byte) (op *fstxn.FsTxn, err nfstypes.Nfsstat3, fh3 nfstypes.Nfs_fh3, fattr nfstypes.Fattr3) {
 	beginOp := fstxn.Begin(nfs.fsstate)
 	var dip, ip *inode.Inode
+	if len(name) == 0 {
+		op = beginOp
+		err = nfstypes.NFS3ERR_INVAL
+		return
+	}
 	op, dip, ip, err = nfs.getAlloc(beginOp, dfh, name, kind)
 	if err != nfstypes.NFS3_OK {
 		return
@@ -645,7 +650,8 @@ func (nfs *Nfs) NFSPROC3_RENAME(args nfstypes.RENAME3args) nfstypes.RENAME3res {
 		toh := fh.MakeFh(args.To.Dir)
 		fromh := fh.MakeFh(args.From.Dir)
 
-		if dir.IllegalName(args.From.Name) {
+		if dir.IllegalName(args.From.Name) || dir.IllegalName(args.To.Name) ||
+			len(args.To.Name) == 0 {
 			errRet(op, &reply.Status, nfstypes.NFS3ERR_INVAL)
 			done = true
 			break
